@@ -164,7 +164,9 @@ impl OneHopPathView {
             .min()
             .unwrap_or(0);
 
-        base + exp_time_to_duration(min_exp).as_secs() as u32
+        // Saturate like `StandardPathView::expiration`: a timestamp close to u32::MAX must not
+        // overflow.
+        base.saturating_add(exp_time_to_duration(min_exp).as_secs() as u32)
     }
 }
 impl Debug for OneHopPathView {
